@@ -11,6 +11,7 @@ import builtins as _bi
 import dataclasses
 import inspect
 import itertools
+import time
 import sys
 import textwrap
 import types
@@ -285,7 +286,13 @@ class State:
 
     # -- names
     def fresh(self, base: str, sort):
+        """A fresh symbol.  Inside a symbolic iteration (binders non-empty) the symbol stands for
+        one value *per element*, so it is a function of the enclosing index variables."""
         self.fresh_n += 1
+        bs = list(getattr(self, 'binders', ()) or ())
+        if bs:
+            f = z3.Function(f'{base}!{self.fresh_n}', *([I] * len(bs)), sort)
+            return f(*bs)
         return z3.Const(f'{base}!{self.fresh_n}', sort)
 
     # -- path condition
@@ -357,8 +364,7 @@ class State:
 
     def set_arr(self, name, value, ref=None):
         self.heap[name] = value
-        if ref is not None:
-            self.written.setdefault(name, []).append(ref)
+        self.written.setdefault(name, []).append(ref if ref is not None else z3.IntVal(-1))
 
     def new_ref(self, cls_name: str):
         r = self.alloc0 + self.nalloc
@@ -475,6 +481,7 @@ class Interp:
         sub.in_spec = self.in_spec
         sub.kdepth = self.kdepth
         sub.binders = list(self.binders)
+        st.binders = list(self.binders)
         dl = getattr(self, 'dict_log', None)
         sub.dict_log = [(r, list(e)) for r, e in dl] if dl is not None else None
         memo: Dict[int, Any] = {}
@@ -492,6 +499,9 @@ class Interp:
             n += 1
             if n > limit:
                 raise Unsupported('path limit exceeded')
+            dl = self.shared.get('deadline')
+            if dl is not None and time.time() > dl:
+                raise Unsupported('time budget of the exploration exceeded')
             sub, nfr = self.clone(trace, pending, frames)
             try:
                 v = thunk(sub, nfr)
@@ -560,10 +570,9 @@ class Interp:
         if ctl.pos < len(ctl.trace):
             d = ctl.trace[ctl.pos]
             ctl.pos += 1
-            if d is None:
-                # recorded as forced: re-derive which side (cheap, deterministic)
-                t_ok, f_ok = self.feasible2(c, nc) if ctl.prune else (True, True)
-                d = t_ok
+            if d == 'T' or d == 'F':
+                # recorded as forced by the hypotheses at that point: a derived fact
+                d = d == 'T'
                 self.st.fact(c if d else nc)
                 return d
         else:
@@ -576,7 +585,7 @@ class Interp:
             else:
                 # forced by the current hypotheses: a derived fact, not a branch decision
                 d = t_ok
-                ctl.trace.append(None)
+                ctl.trace.append('T' if d else 'F')
                 ctl.pos += 1
                 self.st.fact(c if d else nc)
                 return d
@@ -763,7 +772,7 @@ class Interp:
         if k in ('const', 'closure', 'bound', 'exc'):
             return z3.BoolVal(True)
         if k == 'float':
-            raise Unsupported('truthiness of float')
+            return float_nonzero(v.e)
         if k == 'val':
             e = v.e
             alts = type_alternatives(v.T) if v.T else None
@@ -780,7 +789,7 @@ class Interp:
                 elif a[0] == 'int':
                     parts.append(z3.And(Val.is_i(e), Val.iv(e) != 0))
                 elif a[0] == 'float':
-                    raise Unsupported('truthiness of float')
+                    parts.append(z3.And(Val.is_f(e), float_nonzero(Val.fv(e))))
                 elif a[0] in ('obj', 'list', 'dict'):
                     cname = a[1] if a[0] == 'obj' else a[0]
                     parts.append(z3.And(Val.is_r(e), cls_of(Val.rv(e)) == self.reg.cid(cname),
@@ -952,6 +961,8 @@ class Interp:
     def seg_count(self, seg):
         if seg[0] == 'item':
             return z3.IntVal(1)
+        if seg[0] == 'opt':
+            return z3.If(seg[1], 1, 0)
         if seg[0] == 'heap':
             return seg[4]
         if seg[0] == 'comp':
@@ -965,7 +976,7 @@ class Interp:
 
     def heap_seg(self, r, T):
         """Snapshot of a heap list as an iteration segment."""
-        return ('heap', r, T, self.st.L_el[r], self.st.L_len[r])
+        return ('heap', r, T, z3.simplify(self.st.L_el[r]), z3.simplify(self.st.L_len[r]))
 
     def concretize(self, segs):
         """Small-scope mode (refutation search only): a symbolic-length segment is split into the
@@ -1263,12 +1274,14 @@ class Interp:
             if x.T is not None:
                 alts = type_alternatives(x.T)
                 if all(a[0] in ('str', 'none', 'bool', 'int', 'float', 'obj') for a in alts):
-                    # dispatch on the dynamic tag
-                    if any(a[0] == 'str' for a in alts) and self.decide(Val.is_s(e)):
-                        return mk_str(Val.sv(e))
+                    # objects dispatch on the class (their __str__ reads the heap); primitives are
+                    # one term: py_str with its defining equations
                     for a in alts:
                         if a[0] == 'obj' and self.decide(z3.And(Val.is_r(e), cls_of(Val.rv(e)) == self.reg.cid(a[1]))):
                             return self.to_str(SV('ref', Val.rv(e), cls=a[1]))
+                    self.py_str_facts(e)
+                    return mk_str(py_str(e))
+            self.py_str_facts(e)
             return mk_str(py_str(e))
         if k in ('float',):
             return mk_str(py_str(self.box(x)))
@@ -1310,6 +1323,15 @@ class Interp:
             # facts derived under the hypothesis stay available, conditionally on it
             for h in cond_facts:
                 st.fact(z3.Implies(cond, h))
+
+    def py_str_facts(self, e):
+        st = self.st
+        st.fact(z3.Implies(Val.is_s(e), py_str(e) == Val.sv(e)))
+        st.fact(z3.Implies(e == Val.none, py_str(e) == SVAL('None')))
+        st.fact(z3.Implies(Val.is_b(e), py_str(e) == z3.If(Val.bv(e), SVAL('True'), SVAL('False'))))
+        st.fact(z3.Implies(z3.And(Val.is_i(e), Val.iv(e) >= 0), py_str(e) == z3.IntToStr(Val.iv(e))))
+        st.fact(z3.Implies(z3.And(Val.is_i(e), Val.iv(e) < 0),
+                           py_str(e) == z3.Concat(SVAL('-'), z3.IntToStr(-Val.iv(e)))))
 
     def ev_BoolOp(self, node, fr):
         is_and = isinstance(node.op, ast.And)
@@ -1353,6 +1375,33 @@ class Interp:
         raise Unsupported('unary op')
 
     def ev_IfExp(self, node, fr):
+        if self.in_spec > 0:
+            # contract text: a conditional expression is one ite term (no forking)
+            c = z3.simplify(self.truthy(self.ev(node.test, fr)))
+            if z3.is_true(c):
+                return self.ev(node.body, fr)
+            if z3.is_false(c):
+                return self.ev(node.orelse, fr)
+            a = b = None
+            try:
+                a = self.with_assumption(c, lambda: self.ev(node.body, fr))
+            except Infeasible:
+                pass
+            try:
+                b = self.with_assumption(z3.Not(c), lambda: self.ev(node.orelse, fr))
+            except Infeasible:
+                pass
+            if a is None:
+                return b
+            if b is None:
+                return a
+            try:
+                return self.merge_values([(c, a), (z3.BoolVal(True), b)])
+            except Unsupported:
+                pass
+            if self.decide(c):
+                return a
+            return b
         c = self.ev(node.test, fr)
         if self.decide(self.truthy(c)):
             return self.ev(node.body, fr)
@@ -1731,14 +1780,24 @@ class Interp:
             return SV('bm', py=(obj, attr))
         if k == 'super':
             return self.super_getattr(obj, attr)
-        if k in ('presults', 'pgroup'):
+        if k in ('presults', 'pgroup', 'pattern', 'file'):
             return SV('bm', py=(obj, attr))
         raise Unsupported(f'attribute {attr} of {k}')
 
     def getattr_val(self, obj: SV, attr: str) -> SV:
         e = obj.e
         if obj.T is None or obj.T[0] == 'any':
-            raise Unsupported(f'attribute {attr} of an untyped value')
+            # dynamic receiver: one of the registered classes that has the attribute
+            if self.decide(e == Val.none):
+                raise PyRaise(AttributeError, (), f'None.{attr}')
+            for cname in sorted(self.reg.fields):
+                pc = self.reg.pyclass(cname)
+                has = attr in self.reg.fields[cname] or (pc is not None and inspect.getattr_static(pc, attr, _MISSING) is not _MISSING)
+                if not has:
+                    continue
+                if self.decide(z3.And(Val.is_r(e), cls_of(Val.rv(e)) == self.reg.cid(cname))):
+                    return self.getattr_sv(SV('ref', Val.rv(e), cls=cname), attr)
+            raise PyRaise(AttributeError, (), f'?.{attr}')
         alts = type_alternatives(obj.T)
         for a in alts:
             if a[0] == 'none':
@@ -2308,9 +2367,42 @@ class Interp:
             raise Unsupported('store into a module-level dict')
         raise Unsupported(f'subscript store on {obj.k} {obj.cls}')
 
+    def ev_cond(self, node, fr):
+        """Truth value of a test expression as one formula (boolean operators do not fork)."""
+        self.in_spec += 1
+        try:
+            return self.truthy(self.ev(node, fr))
+        finally:
+            self.in_spec -= 1
+
+    def optional_append(self, s, fr):
+        """`if c: xs.append(e)` on a local list: one path with a conditional element."""
+        if s.orelse or len(s.body) != 1 or not isinstance(s.body[0], ast.Expr):
+            return False
+        call = s.body[0].value
+        if not (isinstance(call, ast.Call) and isinstance(call.func, ast.Attribute) and call.func.attr == 'append'
+                and isinstance(call.func.value, ast.Name) and len(call.args) == 1 and not call.keywords):
+            return False
+        lst = fr.lookup(call.func.value.id)
+        if lst is None or lst.k != 'pylist' or lst.py.href is not None:
+            return False
+        c = z3.simplify(self.ev_cond(s.test, fr))
+        if z3.is_true(c) or z3.is_false(c):
+            return False
+        if getattr(self, 'binder', 0):
+            return False
+        try:
+            item = self.with_assumption(c, lambda: self.ev(call.args[0], fr))
+        except Infeasible:
+            return True
+        lst.py.segs.append(('opt', c, item))
+        return True
+
     def ex_If(self, s, fr):
-        c = self.ev(s.test, fr)
-        if self.decide(self.truthy(c)):
+        if self.optional_append(s, fr):
+            return
+        c = self.ev_cond(s.test, fr)
+        if self.decide(c):
             self.exec_block(s.body, fr)
         else:
             self.exec_block(s.orelse, fr)
@@ -2474,11 +2566,24 @@ class Interp:
             return ('slice',) + tuple(x.get_id() for x in seg[1:])
         raise Unsupported(k)
 
-    def heap_changed(self, base_heap, sub_heap) -> List[str]:
+    def heap_changed(self, base_heap, sub_heap, sub_state=None, base_written=None, base_nalloc=0) -> List[str]:
+        """Names of heap arrays that differ — ignoring writes that only touch objects allocated
+        after the base state (allocation inside a loop/comprehension body is not an effect on the
+        pre-existing heap)."""
         out = []
         for k, v in sub_heap.items():
             b = base_heap.get(k)
             if b is not None and not b.eq(v):
+                if sub_state is not None and base_written is not None:
+                    refs = sub_state.written.get(k, [])[base_written.get(k, 0):]
+                    ok = bool(refs)
+                    for r in refs:
+                        d = z3.simplify(r - sub_state.alloc0)
+                        if not (z3.is_int_value(d) and d.as_long() >= base_nalloc):
+                            ok = False
+                            break
+                    if ok:
+                        continue
                 out.append(k)
         return out
 
@@ -2486,16 +2591,20 @@ class Interp:
         """Run `body(sub, frames, x)` for a generic element of `seg` and collect every path.
         Returns (K, length, paths) with paths = [(decisions, facts, outcome, sub, nfr)]."""
         st = self.st
-        K = z3.Int(f'k!{self.kdepth}') if canonical else st.fresh('k', I)
+        st.fresh_n += 1
+        K = z3.Int(f'k!{self.kdepth}') if canonical else z3.Int(f'k!!{st.fresh_n}')
         length = self.seg_length(seg)
         n0 = len(st.pc)
         ob0 = len(st.obligations)
         base_heap = dict(st.heap)
+        base_written = {k: len(v) for k, v in st.written.items()}
+        base_nalloc = st.nalloc
 
         def thunk(sub, nfr):
             sub.st.fact(z3.And(0 <= K, K < length))
             sub.kdepth += 1
             sub.binders = list(self.binders) + [K]
+            sub.st.binders = list(sub.binders)
             x = sub.seg_element(seg, K)
             return body(sub, nfr, x)
         results = self.explore(thunk, frames)
@@ -2504,7 +2613,7 @@ class Interp:
             delta = sub.st.pc[n0:]
             decisions = [d for d in delta if d.get_id() not in sub.st.fact_ids]
             facts = [d for d in delta if d.get_id() in sub.st.fact_ids]
-            changed = self.heap_changed(base_heap, sub.st.heap)
+            changed = self.heap_changed(base_heap, sub.st.heap, sub.st, base_written, base_nalloc)
             paths.append({'dec': decisions, 'facts': facts, 'out': out, 'sub': sub, 'fr': nfr,
                           'changed': changed, 'obl': sub.st.obligations[ob0:]})
         return K, length, paths
@@ -2575,6 +2684,13 @@ class Interp:
             val_cases.append((self.path_cond(p), val))
         cond = z3.simplify(z3.Or(*cond_parts)) if cond_parts else z3.BoolVal(False)
         val = self.merge_values(val_cases) if val_cases else NONE
+        # what was learnt about the generic element (typing, callee postconditions) holds for
+        # every element of the segment
+        pats = self.comp_patterns(seg, K)
+        for p in oks:
+            if p['facts']:
+                rng = z3.And(0 <= K, K < length, *p['dec'])
+                st.fact(self.qf(True, K, z3.Implies(rng, z3.And(*p['facts'][1:])), pats) if len(p['facts']) > 1 else z3.BoolVal(True))
         return self.register_comp(seg, K, length, cond, val, kind)
 
     def comp_patterns(self, seg, j):
@@ -2941,14 +3057,26 @@ class Interp:
                 return mk_str('')
             return mk_str(z3.Concat(*parts) if len(parts) > 1 else parts[0])
         acc_s, acc_n = None, None
+        acc_min = 0          # known lower bound on the number of elements so far
         for s in segs:
+            smin = 0
             if s[0] == 'item':
                 cs, cn = self.as_str(s[1], 'join'), z3.IntVal(1)
+                smin = 1
+            elif s[0] == 'opt':
+                cs = z3.If(s[1], self.as_str(s[2], 'join'), SVAL(''))
+                cn = z3.If(s[1], 1, 0)
             elif s[0] == 'comp':
                 c = s[1]
-                if c.val.k != 'str':
-                    if c.val.k == 'val':
+                if c.val.k == 'val':
+                    # boxed elements: every produced element must be a str (else TypeError)
+                    ok = self.qf(True, c.K, z3.Implies(z3.And(0 <= c.K, c.K < c.length, c.cond), Val.is_s(c.val.e)),
+                                 self.comp_patterns(c.seg, c.K))
+                    if not self.decide(ok):
                         raise PyRaise(TypeError, (), 'join over non-strings')
+                    c = self.register_comp(c.seg, c.K, c.length, c.cond, mk_str(Val.sv(c.val.e)), c.kind)
+                    s = ('comp', c)
+                elif c.val.k != 'str':
                     raise PyRaise(TypeError, (), 'join over non-strings')
                 cs, cn = self.cjoin(c, sep), self.seg_count(s)
                 self.st.fact(z3.Implies(cn == 0, cs == SVAL('')))
@@ -2962,9 +3090,19 @@ class Interp:
                 raise Unsupported(f'join over segment {s[0]}')
             if acc_s is None:
                 acc_s, acc_n = cs, cn
+            elif acc_min >= 1:
+                # something precedes for sure: append `sep + piece` iff the piece is non-empty in count
+                if smin >= 1:
+                    acc_s = z3.Concat(acc_s, sep, cs)
+                elif s[0] == 'opt':
+                    acc_s = z3.Concat(acc_s, z3.If(s[1], z3.Concat(sep, self.as_str(s[2], 'join')), SVAL('')))
+                else:
+                    acc_s = z3.Concat(acc_s, z3.If(cn == 0, SVAL(''), z3.Concat(sep, cs)))
+                acc_n = acc_n + cn
             else:
                 acc_s = z3.If(acc_n == 0, cs, z3.If(cn == 0, acc_s, z3.Concat(acc_s, sep, cs)))
                 acc_n = acc_n + cn
+            acc_min += smin
         return mk_str(z3.simplify(acc_s))
 
     def quantify(self, v: SV, universal: bool):
@@ -3036,6 +3174,7 @@ comp_cnt = z3.Function('comp_cnt', I, I, I, I, I)
 comp_join = z3.Function('comp_join', I, I, I, I, S, S)
 comp_sum = z3.Function('comp_sum', I, I, I, I, I)
 heap_join = z3.Function('heap_join', ElArr, I, S, S)
+float_nonzero = z3.Function('float_nonzero', I, B)
 dict_pos = z3.Function('dict_pos', KeyArr, S, I)
 py_repr = z3.Function('py_repr', Val, S)
 _MISSING = object()
